@@ -131,7 +131,8 @@ def r2(c):
 
     def ren(s):
         s = s.replace('"', "'")
-        if s in ("0 == len(stripped)", "len(stripped) == 0"):
+        s = s.replace(f"{lv}.strip()", "stripped")
+        if s in ("0 == len(stripped)", "len(stripped) == 0", "stripped == ''", "'' == stripped"):
             return "empty"
         if s == "stripped":
             return "nonempty"
@@ -139,10 +140,11 @@ def r2(c):
             return "is_comment"
         return s
     f = gm.formula(row_y[0], G.GuardEnv(rename=ren))
-    ok = G.implies(f, G.Not(G.Atom("empty"))) and G.implies(f, G.Not(G.Atom("is_comment")))
+    ax = G.And(G.Or(G.Atom("empty"), G.Atom("nonempty")), G.Not(G.And(G.Atom("empty"), G.Atom("nonempty"))))
+    ok = G.implies(f, G.Not(G.Atom("empty")), ax) and G.implies(f, G.Not(G.Atom("is_comment")), ax)
     c.check("C05.R2", ok, repo.loc(m, row_y[0]), "_filtered_lines/row-guard", f"a line becomes a row under {G.show(f)}, which does not exclude blank and comment lines", key_text="row-guard")
     st = [n for n in walk_no_nested(fn) if isinstance(n, ast.Assign) and norm(n.targets[0]) == "stripped"]
-    ok = bool(st) and norm(st[0].value) == f"{lv}.strip()"
+    ok = (bool(st) and norm(st[0].value) == f"{lv}.strip()") or any(f"{lv}.strip()" in norm(t) for t, p in gm.of(row_y[0]))
     c.check("C05.R2", ok, repo.loc(m, fn), "_filtered_lines/stripped", "the comment/blank test is not made on the stripped line", key_text="stripped")
     # BlockEnd guard
     conds = gm.of(end_y[0])
@@ -164,27 +166,68 @@ def r2(c):
 
 def r3(c):
     repo = c.repo
-    c.rule("C05.R3", "parse_to_tree: a key gets a fresh odict only under `key not in local_tree` (duplicates merge, nothing is overwritten) and the walk descends into it; "
-                     "_stacked yields one stack per line: deeper -> push, same -> replace the top, shallower -> truncate to level-1 and push")
+    c.rule("C05.R3", "parse_to_tree: walking the path of every line from the root, a key gets a fresh odict only when it is not there yet (`if key not in node: node[key] = odict()` "
+                     "or `node.setdefault(key, odict())`) — duplicates merge, nothing is overwritten — and the walk descends into it; _stacked yields one path per line: deeper "
+                     "-> push, same depth -> replace the top, shallower -> truncate (the slice arithmetic itself is value-level and not decided)")
     m = repo.module(TAB)
     fn = repo.func(TAB, "parse_to_tree")
     c.count("functions", 2)
     gm = GuardMap(fn)
-    st = [n for n in walk_no_nested(fn) if isinstance(n, ast.Assign) and norm(n.targets[0]) == "local_tree[key]"]
-    ok = len(st) == 1 and G.equivalent(gm.formula(st[0]), G.Not(G.Atom("key in local_tree")))
-    c.check("C05.R3", ok, repo.loc(m, st[0] if st else fn), "parse_to_tree/no-overwrite", "a repeated line overwrites (or does not create) its subtree", key_text="overwrite")
-    desc = [n for n in walk_no_nested(fn) if isinstance(n, ast.Assign) and norm(n.targets[0]) == "local_tree" and norm(n.value) == "local_tree[key]"]
-    ok = len(desc) == 1 and gm.formula(desc[0]) == G.T
-    c.check("C05.R3", ok, repo.loc(m, fn), "parse_to_tree/descend", "the walk does not descend into every key of the stack", key_text="descend")
+    outer = [n for n in walk_no_nested(fn) if isinstance(n, ast.For) and isinstance(n.iter, ast.Call) and call_name(n.iter) == "_stacked"]
+    if len(outer) != 1 or not isinstance(outer[0].target, ast.Name):
+        raise AnchorError("parse_to_tree: loop over _stacked(...) not found")
+    inner = [n for n in walk_no_nested(outer[0]) if isinstance(n, ast.For) and n is not outer[0] and isinstance(n.iter, ast.Name) and n.iter.id == outer[0].target.id]
+    if len(inner) != 1 or not isinstance(inner[0].target, ast.Name):
+        raise AnchorError("parse_to_tree: inner loop over the path not found")
+    key = inner[0].target.id
+    # the cursor: X = X[key]  or  X = X.setdefault(key, odict())
+    cursor = None
+    form = None
+    for n in walk_no_nested(inner[0]):
+        if isinstance(n, ast.Assign) and isinstance(n.targets[0], ast.Name):
+            x = n.targets[0].id
+            v = n.value
+            if isinstance(v, ast.Subscript) and norm(v) == f"{x}[{key}]":
+                cursor, form, desc = x, "index", n
+            elif isinstance(v, ast.Call) and isinstance(v.func, ast.Attribute) and v.func.attr == "setdefault" and norm(v.func.value) == x and v.args and norm(v.args[0]) == key:
+                cursor, form, desc = x, "setdefault", n
+    if cursor is None:
+        raise AnchorError("parse_to_tree: descent `node = node[key]` / `node = node.setdefault(key, ...)` not found")
+    c.check("C05.R3", gm.formula(desc) == G.T, repo.loc(m, desc), "parse_to_tree/descend", "the walk does not descend into every key of the path", key_text="descend")
+    if form == "index":
+        st = [n for n in walk_no_nested(inner[0]) if isinstance(n, ast.Assign) and norm(n.targets[0]) == f"{cursor}[{key}]"]
+        ok = len(st) == 1 and G.equivalent(gm.formula(st[0]), G.Not(G.Atom(f"{key} in {cursor}"))) and st[0].lineno < desc.lineno
+        c.check("C05.R3", ok, repo.loc(m, st[0] if st else fn), "parse_to_tree/no-overwrite", "a repeated line overwrites (or does not create) its subtree", key_text="overwrite")
+    else:
+        ok = len(desc.value.args) == 2 and isinstance(desc.value.args[1], ast.Call) and not desc.value.args[1].args
+        c.check("C05.R3", ok, repo.loc(m, desc), "parse_to_tree/no-overwrite", "setdefault does not create an empty subtree for a new key", key_text="overwrite")
+    # the cursor restarts at the root for every path
+    init = [n for n in walk_no_nested(outer[0]) if isinstance(n, ast.Assign) and norm(n.targets[0]) == cursor and n is not desc]
+    rets = [n for n in walk_no_nested(fn) if isinstance(n, ast.Return) and n.value is not None]
+    ok = len(init) == 1 and rets and norm(init[0].value) == norm(rets[-1].value) and not any(x is init[0] for x in ast.walk(inner[0]))
+    c.check("C05.R3", bool(ok), repo.loc(m, outer[0]), "parse_to_tree/restart-at-root", "the walk of a path does not start at the root of the result tree", key_text="root")
     sk = repo.func(TAB, "_stacked")
     gms = GuardMap(sk)
     ys = [n for n in walk_no_nested(sk) if isinstance(n, ast.Yield)]
-    ok = len(ys) == 1 and gms.formula(ys[0]) == G.T and norm(ys[0].value) == "tuple(stack)"
-    c.check("C05.R3", ok, repo.loc(m, sk), "_stacked/one-stack-per-line", "not exactly one stack is yielded per line", key_text="stacked-yield")
-    push = [x for x in calls_in(sk) if isinstance(x.func, ast.Attribute) and x.func.attr == "append" and norm(x.func.value) == "stack"]
-    rep = [n for n in walk_no_nested(sk) if isinstance(n, ast.Assign) and norm(n.targets[0]) == "stack[-1]"]
-    trunc = [n for n in walk_no_nested(sk) if isinstance(n, ast.Assign) and norm(n.targets[0]) == "stack" and "level - 1" in norm(n.value) and "[line]" in norm(n.value)]
-    ok = len(push) == 1 and len(rep) == 1 and len(trunc) == 1
+    ok = len(ys) == 1 and gms.formula(ys[0]) == G.T and isinstance(ys[0].value, ast.Call) and call_name(ys[0].value) == "tuple" and isinstance(ys[0].value.args[0], ast.Name)
+    c.check("C05.R3", ok, repo.loc(m, sk), "_stacked/one-stack-per-line", "not exactly one path is yielded per line", key_text="stacked-yield")
     if ok:
-        ok = cmp_under(gms.of(push[0])[-1][0], "level", "len(stack)", ">") is True and cmp_under(gms.of(rep[0])[-1][0], "level", "len(stack)", "==") is True
-    c.check("C05.R3", ok, repo.loc(m, sk), "_stacked/arms", "push / replace / truncate arms of the path stack are not the offside rule's", key_text="stacked-arms")
+        S = ys[0].value.args[0].id
+        push = [x for x in calls_in(sk) if isinstance(x.func, ast.Attribute) and x.func.attr == "append" and norm(x.func.value) == S]
+        rep = [n for n in walk_no_nested(sk) if isinstance(n, ast.Assign) and norm(n.targets[0]) == f"{S}[-1]"]
+        trunc = [n for n in walk_no_nested(sk) if isinstance(n, ast.Assign) and norm(n.targets[0]) == S and any(isinstance(x, ast.Subscript) and isinstance(x.slice, ast.Slice) and norm(x.value) == S
+                                                                                                                  for x in ast.walk(n.value))]
+        okk = len(push) >= 1 and len(rep) == 1 and len(trunc) == 1
+        if okk:
+            def depth_test(node, order):
+                for t, pol in gms.of(node):
+                    for cm in ast.walk(t):
+                        if isinstance(cm, ast.Compare) and len(cm.ops) == 1 and f"len({S})" in (norm(cm.left), norm(cm.comparators[0])):
+                            other = norm(cm.comparators[0]) if norm(cm.left) == f"len({S})" else norm(cm.left)
+                            v = cmp_under(cm, other, f"len({S})", order)
+                            if v is not None:
+                                return v if pol else (not v)
+                return None
+            deeper_push = [p_ for p_ in push if depth_test(p_, ">") is True and depth_test(p_, "==") is False]
+            okk = bool(deeper_push) and depth_test(rep[0], "==") is True and depth_test(rep[0], ">") is False and depth_test(trunc[0], "<") is True
+        c.check("C05.R3", okk, repo.loc(m, sk), "_stacked/arms", "push (deeper) / replace-top (same depth) / truncate (shallower) arms of the path stack are not all present", key_text="stacked-arms")
